@@ -221,9 +221,10 @@ def prior_dense(p, n):
 
 VARIANTS = {
     "ndarray": ["C", "F", "strided"],
-    "csr": ["canonical", "unsorted", "explicit_zero"],
-    "csc": ["canonical", "unsorted", "explicit_zero"],
-    "coo": ["canonical", "duplicates", "shuffled"],
+    # "idx64": the index arrays are int64 (what scipy produces for matrices derived from very large ones)
+    "csr": ["canonical", "unsorted", "explicit_zero", "idx64"],
+    "csc": ["canonical", "unsorted", "explicit_zero", "idx64"],
+    "coo": ["canonical", "duplicates", "shuffled", "idx64"],
     "lil": ["canonical"],
     "dok": ["canonical"],
     "dia": ["canonical"],
@@ -290,6 +291,9 @@ def to_container(A, spec):
             counts = np.bincount(rows, minlength=n)
             ptr = np.concatenate([[0], np.cumsum(counts)]).astype(base.indptr.dtype)
             return cls((vals.astype(A.dtype), cols.astype(base.indices.dtype), ptr), shape=A.shape)
+        if variant == "idx64":
+            base.indices = base.indices.astype(np.int64)
+            base.indptr = base.indptr.astype(np.int64)
         return base
     if fmt == "coo":
         rows, cols = np.nonzero(A)
@@ -304,7 +308,10 @@ def to_container(A, spec):
             vals[0] = h
         if variant == "shuffled" and len(vals):
             rows, cols, vals = rows[::-1].copy(), cols[::-1].copy(), vals[::-1].copy()
-        return cls((vals.astype(A.dtype), (rows, cols)), shape=A.shape)
+        m = cls((vals.astype(A.dtype), (rows, cols)), shape=A.shape)
+        if variant == "idx64":
+            m.coords = tuple(c.astype(np.int64) for c in m.coords)
+        return m
     if fmt == "bsr":
         if variant == "block" and n % 2 == 0 and n >= 2:
             return cls(A, blocksize=(2, 2))
